@@ -192,6 +192,8 @@ def line_of(e):
 def replay(ctx, path):
     d = json.load(open(path))
     drv = build(ctx)
+    if d["event"].get("e") == "Fault":
+        return core.replay_fault(ctx, d, drv, "FloatTrace", path)
     t = ctx.drive(drv, ["R", line_of(d["event"])], "replay")
     ctx.report(ctx.judge("FloatTrace", [t]))
     return ctx.finish(rule="replay of " + path)
